@@ -14,7 +14,11 @@ type Model struct {
 	Sorts    []SortSpec
 	Rows     map[uint32]map[string]MVal
 	Reserved map[uint32]int // offsets handed to in-flight inserts -> thread id
-	PeakFill int            // max of live+reserved ever seen (C11 bound)
+	// Touched records every (offset, column) slot that was ever stored into: a merge into an
+	// absent value of an untouched slot starts from the true zero value, a merge into an
+	// absent value of a touched slot meets stale content (known finding merge-absent)
+	Touched  map[uint32]map[string]bool
+	PeakFill int // max of live+reserved ever seen (C11 bound)
 }
 
 // SortSpec is a sorted index over a string column.
@@ -24,7 +28,7 @@ type SortSpec struct {
 }
 
 func NewModel() *Model {
-	return &Model{Rows: map[uint32]map[string]MVal{}, Reserved: map[uint32]int{}}
+	return &Model{Rows: map[uint32]map[string]MVal{}, Reserved: map[uint32]int{}, Touched: map[uint32]map[string]bool{}}
 }
 
 func (m *Model) Col(name string) (ColSpec, bool) {
@@ -205,6 +209,7 @@ func (m *Model) applyBlockRaw(t *MTxn, block uint32) []Change {
 			m.Rows[o.Off] = map[string]MVal{}
 			doomed[o.Off] = false
 		case mPut:
+			m.touch(o.Off, o.Col)
 			if live && !doomed[o.Off] {
 				r[o.Col] = o.Val
 			}
@@ -212,6 +217,7 @@ func (m *Model) applyBlockRaw(t *MTxn, block uint32) []Change {
 		case mMerge:
 			c, _ := m.Col(o.Col)
 			nv := modelMerge(c, r[o.Col], o.Val) // r may be nil: reading a nil map yields the zero value
+			m.touch(o.Off, o.Col)
 			if live && !doomed[o.Off] {
 				r[o.Col] = nv
 			}
@@ -265,6 +271,15 @@ func (t *MTxn) killFrom(from int) {
 	}
 }
 
+func (m *Model) touch(off uint32, col string) {
+	t := m.Touched[off]
+	if t == nil {
+		t = map[string]bool{}
+		m.Touched[off] = t
+	}
+	t[col] = true
+}
+
 func (m *Model) notePeak() {
 	if n := len(m.Rows) + len(m.Reserved); n > m.PeakFill {
 		m.PeakFill = n
@@ -287,6 +302,11 @@ func (m *Model) Clone() *Model {
 	}
 	for o, t := range m.Reserved {
 		n.Reserved[o] = t
+	}
+	for o, t := range m.Touched {
+		for c := range t {
+			n.touch(o, c)
+		}
 	}
 	return n
 }
